@@ -74,8 +74,23 @@ def check_case(ctx, P, PP, t, dt, nfrac, fsep, offset, kind, cur, hits):
             'dt': dt.isoformat(), 'nfrac': nfrac, 'fsep': fsep, 'offset': list(offset) if offset else None}
     arg = text.encode('utf-8') if kind == 'bytes' else text
     h0 = hits[0]
+    # the flags can reach the parser as keyword arguments, through a parserinfo, or as keyword arguments that must
+    # override a parserinfo saying the opposite ("if None, the value is retrieved from the parserinfo")
+    mode = 'kwargs'
+    if t.flags:
+        mode = ('kwargs', 'kwargs', 'info', 'info-function', 'override')[ctx.evaluations % 5]
+    case['call'] = mode
+    ctx.count('call_' + mode)
     try:
-        got = ('ok', P.parse(arg, **kw))
+        if mode == 'kwargs':
+            got = ('ok', P.parse(arg, **kw))
+        elif mode == 'info':
+            got = ('ok', P.parser(P.parserinfo(**kw)).parse(arg))
+        elif mode == 'info-function':
+            got = ('ok', P.parse(arg, parserinfo=P.parserinfo(**kw)))
+        else:
+            opposite = P.parserinfo(dayfirst=not kw.get('dayfirst', False), yearfirst=not kw.get('yearfirst', False))
+            got = ('ok', P.parser(opposite).parse(arg, dayfirst=kw.get('dayfirst', False), yearfirst=kw.get('yearfirst', False)))
     except Exception as e:
         got = ('exc', e)
     ctx.ev()
